@@ -71,6 +71,8 @@ type Options struct {
 	ProcPlugins processor.PluginService
 	// FaultCommits/FaultSets enable failing store answers once the stack is provisioned.
 	FaultCommits, FaultSets bool
+	// LateCommits makes commit gates sort last (a flush stays in flight by default).
+	LateCommits bool
 	// NoGateStore leaves store writes ungated (E2 style use).
 	NoGateStore bool
 }
@@ -238,6 +240,7 @@ func (s *Stack) Arm() {
 		s.DB.GateCommits = true
 	}
 	s.DB.FaultCommits = s.Opt.FaultCommits
+	s.DB.LateCommits = s.Opt.LateCommits
 	s.DB.FaultSets = s.Opt.FaultSets
 	if s.Opt.FaultSets {
 		var keys []string
